@@ -7,7 +7,7 @@
    What is NOT proved (only searched by the harness): absence of nil dereferences, slice-bound and
    type-assertion panics in the code outside these guards, and traversals that have no guard. *)
 From Coq Require Import NArith ZArith List Bool.
-From PV Require Import C08.Model C08.ProofsWalk C08.ProofsChain.
+From PV Require Import C08.Model C08.ParseModel C08.ProofsWalk C08.ProofsChain C08.ProofsParse.
 Import ListNotations.
 Open Scope N_scope.
 
@@ -91,6 +91,41 @@ Theorem depth_guard_accepts_within_limit : forall t maxd depth,
   (depth + rdepth t <= eff_depth maxd + 1)%Z -> snd (guarded_descent maxd depth t) = true.
 Proof. exact guarded_descent_accepts. Qed.
 Print Assumptions depth_guard_accepts_within_limit.
+
+(* ---- the object parser (ParseObjectContext / parseObjectContext / parseArray / parseDict) ---- *)
+
+(* For ALL byte strings, all limits and start levels, and whatever the token-level readers do: no call
+   of parseObjectContext is made at a level above the effective limit + 1 (mx = deepest level entered). *)
+Theorem parse_depth_bounded : forall trim tls pname leaf maxd level l,
+  (level <= eff_depth maxd + 1)%Z ->
+  mx_in (parse_top trim tls pname leaf maxd level l) level (eff_depth maxd + 1).
+Proof. exact parse_top_depth. Qed.
+Print Assumptions parse_depth_bounded.
+
+(* The parser is total on all byte strings (fuel 2*len+2 is never exhausted: result or error), provided
+   the token-level readers return no longer a line than they got and a successful read consumes
+   at least one byte (they return Go substrings l[i:]). *)
+Theorem parse_total : forall trim tls pname leaf,
+  (forall l, (length (trim l) <= length l)%nat) ->
+  (forall r l, (length (fst (tls r l)) <= length l)%nat) ->
+  (forall l r, l <> [] -> pname l = (true, r) -> (length r < length l)%nat) ->
+  (forall l r, pname l = (false, r) -> (length r <= length l)%nat) ->
+  (forall l r, leaf l = Some r -> (length r < length l)%nat) ->
+  forall maxd level l, parse_top trim tls pname leaf maxd level l <> POOF.
+Proof. exact parse_top_total. Qed.
+Print Assumptions parse_total.
+
+(* a toy instance (single-byte tokens) showing both outcomes of the guard *)
+Definition toy_trim (l : bytes) : bytes := l.
+Definition toy_tls (r : bool) (l : bytes) : bytes * bool := (l, false).
+Definition toy_pname (l : bytes) : bool * bytes := match l with 47 :: t => (true, t) | _ => (false, l) end.
+Definition toy_leaf (l : bytes) : option bytes := match l with _ :: t => Some t | [] => None end.
+Example C08_parse_examples :
+  parse_top toy_trim toy_tls toy_pname toy_leaf 2 0 [91; 91; 120; 93; 93] = POk [] 2
+  /\ parse_top toy_trim toy_tls toy_pname toy_leaf 2 0 [91; 91; 91; 120; 93; 93; 93] = PErr PDepth 3
+  /\ parse_top toy_trim toy_tls toy_pname toy_leaf 2 0 [60; 60; 47; 60; 60; 47; 120; 62; 62; 62; 62] = POk [] 2
+  /\ parse_top toy_trim toy_tls toy_pname toy_leaf 1 0 [60; 60; 47; 60; 60; 47; 120; 62; 62; 62; 62] = PErr PDepth 2.
+Proof. vm_compute. repeat split; reflexivity. Qed.
 
 (* ---- non-vacuity / examples ---- *)
 Definition ex_tree_g : graph :=
